@@ -266,20 +266,30 @@ def path_conds(f: FuncInfo, node: ast.AST) -> List[Tuple[str, bool]]:
             t, truth = t.operand, not truth
         return (norm_text(t).replace('"', "'"), truth)
 
+    def push(t, truth):
+        """a conjunction that holds / a disjunction that fails is the list of its parts"""
+        while isinstance(t, ast.UnaryOp) and isinstance(t.op, ast.Not):
+            t, truth = t.operand, not truth
+        if isinstance(t, ast.BoolOp) and ((isinstance(t.op, ast.And) and truth) or (isinstance(t.op, ast.Or) and not truth)):
+            for v in t.values:
+                push(v, truth)
+        else:
+            out.append(fold(t, truth))
+
     def walk(stmts) -> bool:
         for k, st in enumerate(stmts):
             inside = st is node or any(sub is node for sub in ast.walk(st))
             if not inside:
                 if isinstance(st, ast.If) and not st.orelse and _terminates(st.body):
-                    out.append(fold(st.test, False))
+                    push(st.test, False)
                 continue
             if isinstance(st, ast.If):
                 if any(sub is node for sub in ast.walk(st.test)):
                     return True
                 if any(sub is node for b in st.body for sub in ast.walk(b)):
-                    out.append(fold(st.test, True))
+                    push(st.test, True)
                     return walk(st.body)
-                out.append(fold(st.test, False))
+                push(st.test, False)
                 return walk(st.orelse)
             for fld in ("body", "orelse", "finalbody"):
                 sub = getattr(st, fld, None)
@@ -293,6 +303,62 @@ def path_conds(f: FuncInfo, node: ast.AST) -> List[Tuple[str, bool]]:
         return False
     mark = len(out)
     walk(f.node.body)
+    return out
+
+
+def decision_paths(f: FuncInfo, limit: int = 256):
+    """every path through a small decision function: (conditions that hold along it [(text, truth)], returned value) where names bound to constants along the path are
+    replaced by those constants.  Handles if / assignments / return / try (the handler is the alternative path `except <types>`); loops are not followed (returns None)."""
+    out = []
+
+    def push(conds, t, truth):
+        while isinstance(t, ast.UnaryOp) and isinstance(t.op, ast.Not):
+            t, truth = t.operand, not truth
+        if isinstance(t, ast.BoolOp) and ((isinstance(t.op, ast.And) and truth) or (isinstance(t.op, ast.Or) and not truth)):
+            for v in t.values:
+                conds = push(conds, v, truth)
+            return conds
+        return conds + [(norm_text(t).replace('"', "'"), truth)]
+
+    def value(e, env):
+        if isinstance(e, ast.Name) and e.id in env:
+            return env[e.id]
+        if isinstance(e, ast.Constant):
+            return e.value
+        return norm_text(e) if e is not None else None
+
+    def run(stmts, conds, env, k):
+        """k: continuation (list of statement lists to run after this block)"""
+        if len(out) > limit:
+            return
+        if not stmts:
+            if k:
+                run(k[0], conds, env, k[1:])
+            else:
+                out.append((conds, None))
+            return
+        st, rest = stmts[0], stmts[1:]
+        if isinstance(st, ast.Return):
+            out.append((conds, value(st.value, env)))
+        elif isinstance(st, ast.Raise):
+            out.append((conds, "<raise>"))
+        elif isinstance(st, ast.Assign) and len(st.targets) == 1 and isinstance(st.targets[0], ast.Name):
+            e2 = dict(env)
+            e2[st.targets[0].id] = value(st.value, env)
+            run(rest, conds, e2, k)
+        elif isinstance(st, ast.If):
+            run(st.body, push(conds, st.test, True), env, [rest] + k)
+            # a disjunction that fails / conjunction that holds splits; the complementary branch is kept as one (possibly compound) condition
+            run(st.orelse, push(conds, st.test, False), env, [rest] + k)
+        elif isinstance(st, ast.Try):
+            run(st.body, conds, env, [rest] + k)
+            for h in st.handlers:
+                run(h.body, conds + [("except " + (norm_text(h.type) if h.type is not None else ""), True)], env, [rest] + k)
+        elif isinstance(st, (ast.For, ast.While)):
+            out.append((conds, "<loop>"))
+        else:
+            run(rest, conds, env, k)
+    run(list(f.node.body), [], {}, [])
     return out
 
 
